@@ -26,10 +26,10 @@ META = {
                   "extractors still run (cancel_inside_extract_same_file); cancellation is reported as failure exactly when visits "
                   "remained (cancel_reports_failure). Run never panics for any trees, faults, limits, cancellation points, requested paths "
                   "and roots, with or without UseGitignore (limits_never_panic; the former gitignore-stack panic was repaired in "
-                  "/repo commit 3fdcaf3f and its witnesses are part of the regression corpus). Image half (layer_file_limit): see part_C10_image.",
+                  "/repo commit 3fdcaf3f and its witnesses are part of the regression corpus). Image half (layer_file_limit): part_C10_image; plugin loops (cancel_runs_no_further_plugin, ...): part_C10_plugins.",
     "level_note": "Trusted: Coq kernel + vm_compute; harness (cancellation through a context the stats hook / fake extractor cancels "
-                  "at a chosen call). The per-plugin context checks of standalone.Run and detector.Run are not modelled "
-                  "(no standalone extractor or detector is configured by the walk harness).",
+                  "at a chosen call). The per-plugin context checks of standalone.Run and detector.Run ('runs no further plugin') "
+                  "are the plugin-loop half: checks/part_C10_plugins.py (Detect/Props_C10_plugins.v).",
     "design_ref": "DESIGN.md section 5 C10",
 }
 
@@ -116,33 +116,42 @@ def run(ctx):
                        "explanation": "the listed witness no longer panics on the implementation although the model and the "
                                       "_refuted theorem say so; theorem named in entry is stale"}, nofail=True)
 
-    # image half (written by the Contain builder)
-    img_stats = None
-    part_path = os.path.join(vlib.VERIF, "checks", "part_C10_image.py")
-    img_corr, img_spec = [], []
-    if os.path.exists(part_path):
-        spec = importlib.util.spec_from_file_location("part_C10_image", part_path)
+    # the halves written by other builders: image (layer file limit) and plugin loops (standalone / detector context checks)
+    parts = []
+    for pname, fname, rulekey in (("image", "part_C10_image.py", "rule_image"), ("plugins", "part_C10_plugins.py", "rule_plugins")):
+        part_path = os.path.join(vlib.VERIF, "checks", fname)
+        if not os.path.exists(part_path):
+            ctx.notes.append("checks/%s absent: %s half not run" % (fname, pname))
+            continue
+        spec = importlib.util.spec_from_file_location(fname[:-3], part_path)
         part = importlib.util.module_from_spec(spec)
         spec.loader.exec_module(part)
-        img_corr, img_spec, img_stats = part.run_part(ctx)
-        ipa = img_stats.get("pa") or {}
-        if img_stats.get("gate_hits"):
-            ctx.violation({"kind": "gate", "hits": img_stats["gate_hits"], "part": "image"}, nofail=True)
-        for c in img_spec[:3]:
-            ctx.violation({"kind": "spec-failure", "part": "image", "case": c,
-                           "explanation": "a layer file at or above MaxFileBytes is exposed, or more than the limit was written"})
-        if not img_spec:
-            if ipa and not ipa.get("ok", True):
-                ctx.violation({"kind": "proof-broken", "part": "image", "theorems": img_stats.get("theorems"),
-                               "log_tail": ipa.get("log_tail")}, nofail=True)
-            if img_stats.get("harness_build_failed"):
-                ctx.violation({"kind": "harness-build-failed", "part": "image", "log": img_stats["harness_build_failed"]}, nofail=True)
-            if img_corr:
-                ctx.violation({"kind": "correspondence-broken", "part": "image", "correspondence": img_stats.get("correspondence"),
-                               "theorems_no_longer_tied_to_code": img_stats.get("theorems"), "first_mismatch": img_corr[0],
-                               "mismatches": len(img_corr)}, nofail=True)
-    else:
-        ctx.notes.append("checks/part_C10_image.py absent: image half (layer_file_limit) not run")
+        p_corr, p_spec, p_stats = part.run_part(ctx)
+        parts.append((pname, rulekey, p_stats))
+        ppa = p_stats.get("pa") or {}
+        if p_stats.get("gate_hits"):
+            ctx.violation({"kind": "gate", "hits": p_stats["gate_hits"], "part": pname}, nofail=True)
+        for c in p_spec[:3]:
+            ctx.violation({"kind": "spec-failure", "part": pname, "case": c,
+                           "explanation": "the %s half of C10 fails on this case (see the part's replay)" % pname})
+        if not p_spec:
+            if ppa and not ppa.get("ok", True):
+                ctx.violation({"kind": "proof-broken", "part": pname, "theorems": p_stats.get("theorems"),
+                               "log_tail": ppa.get("log_tail")}, nofail=True)
+            if p_stats.get("harness_build_failed"):
+                ctx.violation({"kind": "harness-build-failed", "part": pname, "log": p_stats["harness_build_failed"]}, nofail=True)
+            if p_corr:
+                ctx.violation({"kind": "correspondence-broken", "part": pname, "correspondence": p_stats.get("correspondence"),
+                               "theorems_no_longer_tied_to_code": p_stats.get("theorems"), "first_mismatch": p_corr[0],
+                               "mismatches": len(p_corr)}, nofail=True)
+    img_stats = {}
+    for pname, rulekey, st in parts:
+        img_stats.setdefault("evaluations", 0)
+        img_stats.setdefault("distinct_nontrivial", 0)
+        img_stats["evaluations"] += st.get("evaluations", 0)
+        img_stats["distinct_nontrivial"] += st.get("distinct_nontrivial", 0)
+        img_stats["rule_image"] = (img_stats.get("rule_image", "") + " " + st.get(rulekey, "")).strip()
+        img_stats["samples"] = img_stats.get("samples", []) + st.get("samples", [])[:2]
 
     seen = set()
     for c in cases:
@@ -168,7 +177,6 @@ def run(ctx):
             "gitignore": wc.histogram(bool(c.get("gitignore")) for c in cases),
             "iff_oracle_domain": len(iff_dom), "observed_panics": len(panics),
             "base_trees": len({c.get("variant") for c in cases}),
-            "image_half": {k: v for k, v in (img_stats or {}).items() if k in ("evaluations", "distinct_nontrivial", "size_vs_limit", "streams")},
         },
         "vm_compute_cases": len(cases),
         "explanation": "bounds (visits <= MaxInodes, size of every extracted file <= MaxFileSize, no Extract on a file first visited "
@@ -176,14 +184,18 @@ def run(ctx):
                        "work-remained statements on the cases inside their domain",
     }
     ctx.coverage.update(cov)
-    if img_stats:
-        ipa = img_stats.get("pa") or {}
-        ctx.coverage["obligations"] += ipa.get("obligations", 0)
-        ctx.coverage["discharged"] += ipa.get("discharged", 0)
-        ctx.coverage["theorems"] = ctx.coverage.get("theorems", []) + (ipa.get("theorems") or [])
-        ctx.coverage["print_assumptions_closed"] += ipa.get("print_assumptions_closed", 0)
-        ctx.coverage["trusted_base"] += img_stats.get("trusted_base", [])
-        ctx.coverage["checker_cmd"] += " theories/Contain/Props_C10_image.vo"
+    for pname, rulekey, st in parts:
+        ppa = st.get("pa") or {}
+        ctx.coverage["obligations"] += ppa.get("obligations", 0)
+        ctx.coverage["discharged"] += ppa.get("discharged", 0)
+        ctx.coverage["theorems"] = ctx.coverage.get("theorems", []) + (ppa.get("theorems") or [])
+        ctx.coverage["print_assumptions_closed"] += ppa.get("print_assumptions_closed", 0)
+        ctx.coverage["trusted_base"] += st.get("trusted_base", [])
+        if ppa.get("props_file"):
+            ctx.coverage["checker_cmd"] += " theories/%s.vo" % ppa["props_file"][:-2]
+        ctx.coverage["input_distribution"][pname + "_half"] = {
+            k: v for k, v in st.items()
+            if k in ("evaluations", "distinct_nontrivial", "size_vs_limit", "streams", "cancellation_points", "outcomes", "plugin_list_shapes")}
     ctx.assumptions += ["the context is cancelled by the harness at a chosen AfterInodeVisited / Extract call",
                         "go-git / regexp / glob are functions (tabulated per case)"]
     if unexpected_panics:
@@ -197,6 +209,12 @@ def replay(ctx, path):
     case = obj.get("case") or obj.get("first_mismatch") or obj
     if obj.get("part") == "image":
         print("image-half replay: see harness/cmd/contain -limitmode; case:", json.dumps(case))
+        return 0
+    if obj.get("part") == "plugins":
+        spec = importlib.util.spec_from_file_location("part_C10_plugins", os.path.join(vlib.VERIF, "checks", "part_C10_plugins.py"))
+        part = importlib.util.module_from_spec(spec)
+        spec.loader.exec_module(part)
+        print(part.replay_case(ctx, case))
         return 0
     coq_case, impl = wc.replay_witness(ctx, binp, case, "replay")
     print("implementation:", json.dumps(impl))
